@@ -43,7 +43,7 @@ Step(st, ev) ==
        IF a = -1 THEN [st EXCEPT !.unknown = @ + 1]
        ELSE LET A == st.rec[a]
                 parts == {a + i * P2(o) : i \in 0 .. (P2(A - o) - 1)}
-                keep == ((DOMAIN st.rec) \ {a}) \cup (parts \ {p})
+                keep == ((DOMAIN st.rec) \ parts) \cup (parts \ {p})
             IN [rec |-> [x \in keep |-> IF x \in parts THEN o ELSE st.rec[x]],
                 held |-> st.held - P2(o), unknown |-> st.unknown]
 
@@ -57,8 +57,14 @@ Expected(seq) == Run(Empty, seq)
 CONSTANTS Letters, Depth
 VARIABLE hist
 Init == hist = <<>>
+\* a trace is consistent if an allocation never overlaps a block the trace still holds, except for a
+\* re-allocation of the very same pfn (a free the trace missed): overlapping live allocations cannot happen in a
+\* kernel, and "the frames the trace still holds" would not be defined for them
+Overlaps(p, o, q, ro) == p < q + P2(ro) /\ q < p + P2(o)
+ValidAlloc(rec, p, o) == \A q \in DOMAIN rec : Overlaps(p, o, q, rec[q]) => q = p
+ValidEvent(h, ev) == ev[1] = 0 \/ ValidAlloc(Expected(h).rec, ev[2], ev[3])
 Next == /\ Len(hist) < Depth
-        /\ \E ev \in Letters : hist' = Append(hist, ev)
+        /\ \E ev \in Letters : ValidEvent(hist, ev) /\ hist' = Append(hist, ev)
 Spec == Init /\ [][Next]_hist
 \* every reachable hist is printed once (BFS: one state per distinct sequence)
 Emit == PrintT(<<"SEQ", ToJson(hist)>>)
